@@ -138,7 +138,7 @@ def check_alpha_lookup(ctx, rule):
         ctx.touch(q)
         it = interp(ctx)
         for p in returns(it.run_function(q)):
-            stores = [e for e in p.events if e.kind == "store_attr" and e.data["attr"] == "alpha" and e.func == q]
+            stores = [e for e in p.events if e.kind == "store_attr" and e.data["attr"] == "alpha"]
             for e in stores:
                 n += 1
                 v = e.data["value"]
